@@ -405,6 +405,7 @@ func (x *xb) blockField(e *evaluator, v ssa.Value) (blockFieldRef, bool) {
 	switch b := fa.X.(type) {
 	case *ssa.Alloc:
 		if p := paramOfSpill(b); p != nil {
+			p = canonParam(e, p)
 			if x.bp == nil {
 				x.bp = p
 			}
@@ -483,6 +484,7 @@ func (x *xb) blocks(k int) {
 		switch b := ku.X.(type) {
 		case *ssa.Alloc:
 			if p := paramOfSpill(b); p != nil {
+				p = canonParam(ek, p)
 				if x.bp == nil {
 					x.bp = p
 				}
@@ -740,6 +742,52 @@ func (x *xb) perCornerLoop() {
 			if st.K >= 0 {
 				continue
 			}
+			if st.In != nil {
+				// the per-corner loop lives in a helper called at st.In: the helper reports completion, the caller
+				// only goes on to the reads when it did
+				cb := st.In.Block()
+				if doneLoop[cb] {
+					continue
+				}
+				doneLoop[cb] = true
+				okAll, n := true, 0
+				var gaveUp *ssa.BasicBlock
+				for _, a2 := range []*slotArr{s.D, s.I} {
+					for _, ld := range loadsOf(a2) {
+						if ld.Parent() != st.In.Parent() || !cb.Dominates(ld.Block()) || (ld.Block() == cb && !ssau.Before(st.In, ld)) {
+							continue // not after the call
+						}
+						n++
+						ok, g := s.m.helperFillsBefore(st, ld.Block())
+						if !ok {
+							okAll = false
+						} else {
+							gaveUp = g
+						}
+					}
+				}
+				if n > 0 && okAll && gaveUp != nil {
+					var parent *ssau.Loop
+					for _, l := range ssau.Loops(st.In.Parent()) {
+						if l.Blocks[cb] && (parent == nil || len(l.Blocks) < len(parent.Blocks)) {
+							parent = l
+						}
+					}
+					if parent != nil && !parent.Blocks[gaveUp] {
+						s.violate("XB-6", "perCornerLoop:skipsOneCell", st.In.Pos(), "when a neighbouring block is missing (the helper that fetches the corners gives up) the caller leaves more than the current cell: the remaining cells of the row / block are never triangulated and the surface is left open there")
+					} else if parent != nil {
+						s.hold("XB-6", "perCornerLoop:skipsOneCell", st.In.Pos(), "when the corner-fetching helper gives up the caller stays inside the innermost cell loop: only the cell with the missing neighbour is skipped")
+					}
+				}
+				switch {
+				case n == 0:
+				case okAll:
+					s.hold("XB-6", "perCornerLoop:completes", st.In.Pos(), fmt.Sprintf("%d reads of the per-corner blocks / indices are reachable only when the helper %s reported that its loop visited all corners (its other returns are early exits; the caller tests the result)", n, st.Store.Parent().Name()))
+				default:
+					s.violate("XB-6", "perCornerLoop:completes", st.In.Pos(), "the per-corner blocks / indices are read although the helper that fills them may have stopped early (a neighbouring block is missing): its result is not tested, or the result it returns does not tell a completed loop from an early exit — the cell is triangulated from stale or default entries instead of being skipped")
+				}
+				continue
+			}
 			var loop *ssau.Loop
 			for _, l := range ssau.Loops(st.Store.Parent()) {
 				if l.Blocks[st.Store.Block()] && (loop == nil || len(l.Blocks) < len(loop.Blocks)) {
@@ -913,4 +961,23 @@ func (x *xb) alternatives(v ssa.Value) ([]nbAlt, ssa.Value) {
 		return out, t
 	}
 	return nil, v
+}
+
+// canonParam: the parameter of the analysed site a helper's parameter is bound to (p itself outside helpers).
+func canonParam(e *evaluator, p *ssa.Parameter) *ssa.Parameter {
+	if e == nil {
+		return p
+	}
+	v, _ := e.canon(p)
+	if q, ok := structSource(v).(*ssa.Parameter); ok {
+		return q
+	}
+	if u, ok := v.(*ssa.UnOp); ok && u.Op == token.MUL {
+		if al, ok := u.X.(*ssa.Alloc); ok {
+			if q := paramOfSpill(al); q != nil {
+				return q
+			}
+		}
+	}
+	return p
 }
